@@ -28,7 +28,7 @@ CHECKS = {
          '(tiny sizes) and simulated ones of depth 10; each step carries the predicted answers (single and batch), obligations and Count; the '
          'real NewBloomFilter over a real client on fakeredis must agree: a must-present item reported absent, batch answers differing from '
          'per-key answers, or a decreasing Count is a violation.',
-    design_ref='DESIGN.md 4.6 Bloom.tla, 5 C35-C37, 7 #9; proposed/design_bloomom.md',
+    design_ref='DESIGN.md 4.6 Bloom.tla, 5 C35-C37, 7 #9; design/bloomom.md',
     note=_BLOOM_NOTE),
  'C36': dict(
     level='model_checking',
@@ -42,7 +42,7 @@ CHECKS = {
          'suspends the obligations until Delete. Replay compares, after every step, Exists / ExistsMulti / ItemMinCount / ItemMinCountMulti / '
          'Count and the raw hash counters (HGETALL on the fake server) with the prediction; histories contain batches with repeated keys, items '
          'with repeated indexes, colliding items, removals predicted to fail.',
-    design_ref='DESIGN.md 4.6 Bloom.tla, 5 C35-C37; proposed/design_bloomom.md',
+    design_ref='DESIGN.md 4.6 Bloom.tla, 5 C35-C37; design/bloomom.md',
     note=_BLOOM_NOTE + ' Counting histories are generated for sizes up to 400 (quick) / 1000 (thorough) counters.'),
  'C37': dict(
     level='model_checking',
@@ -56,7 +56,7 @@ CHECKS = {
          'emptying both filters, rotation clearing the current filter. Replay: fakeredis.VirtualClock stepped by the scenario (tick = half '
          'window / 2), all histories of depth 5 over Tick/Add/Exists/AddMulti/ExistsMulti/Reset/Delete for a tiny real size plus simulated '
          'ones of depth 14; Exists answers and Count compared with the prediction.',
-    design_ref='DESIGN.md 4.6 Bloom.tla, 5 C35-C37; proposed/design_bloomom.md',
+    design_ref='DESIGN.md 4.6 Bloom.tla, 5 C35-C37; design/bloomom.md',
     note=_BLOOM_NOTE + ' Sliding Reset returns the Redis-nil error on success (its script has no return statement; the repository test '
          'tolerates it): taken as success, not part of C37.'),
  'C40': dict(
@@ -75,7 +75,7 @@ CHECKS = {
          'Round trip: generated values of string (empty, control characters, binary for raw hash fields), int64 extremes, bool, []byte, '
          '[]string, []float32/[]float64 vectors, nested/pointer/slice-of struct, map, *string/*int64/*bool/*float64, time.Time expiry tag, '
          'over 4 successive versions of an entity.',
-    design_ref='DESIGN.md 4.6 Om.tla, 5 C40; proposed/design_bloomom.md',
+    design_ref='DESIGN.md 4.6 Om.tla, 5 C40; design/bloomom.md',
     note='Trusted: TLC; fakeredis + luamini executing the real script texts, RedisJSON emulated on encoding/json (root path, one numeric '
          'member). Concurrency = order of atomic script executions by savers holding copies of the same version (the server serialises '
          'scripts); the client is a single connection. Entities compared field by field with nil and empty slices identified; JSON-encoded '
